@@ -158,7 +158,16 @@ impl<'a, N: Normalizer> XmlSerializer<'a, N> {
                 r
             }
             Prefix(prefix_id, namespace_id) => {
-                // we don't want to output the xml prefix
+                // an attribute xmlns:xmlns is not a declaration anyone can read
+                if self.xot.prefix_str(*prefix_id) == "xmlns" {
+                    return Err(Error::InvalidOperation(format!(
+                        "Cannot serialize a declaration of the reserved prefix {}",
+                        self.xot.prefix_str(*prefix_id)
+                    )));
+                }
+                // we don't want to output the xml prefix (names in the XML
+                // namespace are always written with it, whatever else is
+                // bound to that namespace)
                 if *namespace_id == self.xot.xml_namespace() {
                     return Ok(OutputToken {
                         space: false,
@@ -200,6 +209,13 @@ impl<'a, N: Normalizer> XmlSerializer<'a, N> {
             }
             Attribute(name_id, value) => {
                 let fullname = self.fullname_serializer.attribute_fullname(*name_id)?;
+                if fullname == "xmlns" {
+                    // it would be read back as a namespace declaration
+                    return Err(Error::InvalidOperation(
+                        "Cannot serialize an attribute without namespace that is named xmlns"
+                            .to_string(),
+                    ));
+                }
                 OutputToken {
                     space: true,
                     text: format!(
